@@ -144,6 +144,34 @@ def c11_1(facts, res, rule="C11-1"):
                             % (v, sorted(ns or []), sorted(must), sorted(must_not)), g["file"], g["line"], {}))
 
 
+def c11_8(facts, res, rule="C11-8"):
+    """xml_info::equal_qname decides whether a declared attribute is written, which declaration belongs to an attribute and
+    which attribute-list declaration to an element: two prefixed names are equal iff prefix and local part are equal, two
+    unprefixed names iff they are the same string, a prefixed and an unprefixed name never."""
+    st = res.rule(rule, instances=1)
+    f = facts.fn("xml_info::equal_qname")
+    problems = []
+    inner = [n for n in walk(f["body"]) if n.get("k") == "Match" and n.get("src") == "Normal"]
+    pp = None
+    for n in inner:
+        for arm in n["arms"]:
+            if any(str(q.get("path", "")).endswith("QName::Prefixed") for q in walk(arm["pat"])):
+                for a2 in [x for x in walk(arm["body"]) if x.get("k") == "Match" and x.get("src") == "Normal"]:
+                    for arm2 in a2["arms"]:
+                        if any(str(q.get("path", "")).endswith("QName::Prefixed") for q in walk(arm2["pat"])):
+                            pp = arm2["body"]
+    if pp is None:
+        raise BrokenCheck("%s: no (Prefixed, Prefixed) case found in xml_info::equal_qname" % rule)
+    eqs = [m for m in walk(pp) if m.get("k") == "Binary" and m.get("op") == "=="]
+    flds = sorted({x.get("name") for m in eqs for x in walk(m) if x.get("k") == "Field"})
+    conj = any(m.get("k") == "Binary" and m.get("op") == "&&" for m in walk(pp))
+    ok = len(eqs) == 2 and conj and flds == ["local_part", "prefix"] and not any(m.get("k") == "Binary" and m.get("op") == "||" for m in walk(pp))
+    res.oblige(1, ok)
+    if not ok:
+        res.add(Finding(rule, "equal_qname|prefixed", "xml_info::equal_qname: two prefixed names are compared by %s (expected prefix and local part): "
+                        "a declared p:a counts as written when q:a is, and an ATTLIST for p:r applies to q:r" % (flds or "nothing"), f["file"], f["line"], {}))
+
+
 def run(facts, tier):
     res = Result("C11")
     res.explanation = (
@@ -225,5 +253,8 @@ def run(facts, tier):
     guards.rule(facts, res, "C11-6g", [facts.fns[x] for x in reach if x in facts.fns], want=("G1", "G2", "G3", "G4", "G5"), floor=1)
     # ---- C11-7: "is the attribute written?" = no written attribute has the declaration's qualified name
     c11_7(facts, res, e)
+    c11_8(facts, res)
+    from props import c01
+    c01.r01_3(facts, res)      # the pieces of an attribute value all reach the value list (no piece dropped by a narrowed arm)
     res.functions_analysed = 6
     return res
